@@ -85,3 +85,54 @@ contract(
     options={"asserts": [("tag-target-marked", ">if obj.object[1] not in reachable:", ["obj.object[1] in reachable"]),
                          ("ref-target-marked", ">if sha and sha not in reachable:", ["not sha or sha in reachable"])]},
 )
+
+
+# ---- the grace period: an object is deleted only if it was selected as unreachable AND (no grace period, or its age has reached it) ----
+# Time stamps are treated as mathematical integers (time.time() / st_mtime are floats in the code: rounding is not modelled).
+class_spec(file="<abstract>", cls="PruneStoreAbs", fields={})
+contract(prop=["C10"], file="<abstract>", func="PruneStoreAbs.__getitem__@abs", trusted=True, params={"self": "obj:PruneStoreAbs", "sha": "opaque"},
+         returns="opaque", raises={ANY: None})
+contract(prop=["C10"], file="<abstract>", func="PruneStoreAbs.get_object_mtime@abs", trusted=True, params={"self": "obj:PruneStoreAbs", "sha": "opaque"},
+         returns="int", raises={ANY: None}, note="any time stamp; may raise KeyError")
+contract(prop=["C10"], file="<abstract>", func="PruneStoreAbs.delete_loose_object@abs", trusted=True, params={"self": "obj:PruneStoreAbs", "sha": "opaque"},
+         returns="None", raises={ANY: None})
+contract(prop=["C10"], file="<stdlib>", func="time.time@abs", trusted=True, params={}, returns="int", raises={}, note="any instant (integer model of the clock)")
+contract(prop=["C10"], file="<abstract>", func="find_unreachable_objects@sel", trusted=True,
+         params={"object_store": "opaque", "refs_container": "opaque", "include_reflogs": "opaque", "progress": "opaque"},
+         returns="set[opaque]", raises={ANY: None}, ensures=["all(upred('selected_unreachable', x) for x in result)"],
+         note="the selection proved above (find_unreachable_objects: nothing in the reachable set is returned), named by a ghost predicate")
+_PRUNE_OPTS = {"callee_contracts": {"find_unreachable_objects": ("<abstract>", "find_unreachable_objects@sel"),
+                                    "PruneStoreAbs.__getitem__": ("<abstract>", "PruneStoreAbs.__getitem__@abs"),
+                                    "PruneStoreAbs.get_object_mtime": ("<abstract>", "PruneStoreAbs.get_object_mtime@abs"),
+                                    "PruneStoreAbs.delete_loose_object": ("<abstract>", "PruneStoreAbs.delete_loose_object@abs")},
+               "primitives": {"time.time": "time.time@abs"}}
+contract(
+    prop=["C10"], file=GC, func="prune_unreachable_objects",
+    params={"object_store": "obj:PruneStoreAbs", "refs_container": "opaque", "grace_period": "int|None", "dry_run": "bool", "progress": "None"},
+    returns="opaque", raises={ANY: None},
+    loops={1: dict(invariant=["True"], types={"age": "int", "mtime": "int", "pruned": "set[opaque]"})},
+    options=dict(_PRUNE_OPTS, asserts=[("deleted-only-if-selected-and-old-enough", "object_store.delete_loose_object(sha)",
+                                        ["upred('selected_unreachable', sha)", "grace_period is None or age >= grace_period"])]),
+)
+class_spec(file="<abstract>", cls="GcStoreAbs", fields={"packs": "opaque"})
+class_spec(file="<abstract>", cls="GcRepoAbs", fields={"object_store": "obj:GcStoreAbs", "refs": "opaque"})
+_GC_METHODS = {"__getitem__": (["sha"], "opaque"), "get_object_mtime": (["sha"], "int"), "delete_loose_object": (["sha"], "None"),
+               "count_loose_objects": ([], "int"), "contains_loose": (["sha"], "bool"), "repack": (["exclude", "progress"], "opaque"),
+               "prune": (["grace_period"], "None")}
+for _m, (_ps, _r) in _GC_METHODS.items():
+    contract(prop=["C10"], file="<abstract>", func=f"GcStoreAbs.{_m}@abs", trusted=True, params=dict({"self": "obj:GcStoreAbs"}, **{p_: "opaque" for p_ in _ps}),
+             returns=_r, raises={ANY: None}, note="abstract store operation: any result, may raise")
+contract(
+    prop=["C10"], file=GC, func="garbage_collect",
+    params={"repo": "obj:GcRepoAbs", "auto": "bool", "aggressive": "bool", "prune": "bool", "grace_period": "int|None", "dry_run": "bool", "progress": "None"},
+    returns="opaque", raises={ANY: None},
+    loops={1: dict(invariant=["all(upred('selected_unreachable', x) for x in unreachable_to_prune)"],
+                   types={"age": "int", "mtime": "int", "unreachable_to_prune": "set[opaque]"}),
+           2: dict(invariant=["True"], types={"unreachable_to_prune": "set[opaque]"})},
+    options={"callee_contracts": dict({"find_unreachable_objects": ("<abstract>", "find_unreachable_objects@sel")},
+                                      **{f"GcStoreAbs.{m_}": ("<abstract>", f"GcStoreAbs.{m_}@abs") for m_ in _GC_METHODS}),
+             "primitives": {"time.time": "time.time@abs"},
+             "asserts": [("selected-for-pruning-only-if-unreachable-and-old-enough", "unreachable_to_prune.add(sha)",
+                          ["upred('selected_unreachable', sha)", "grace_period is None or age >= grace_period"]),
+                         ("deleted-only-if-selected", "object_store.delete_loose_object(sha)", ["upred('selected_unreachable', sha)"])]},
+)
